@@ -30,6 +30,9 @@ META = {
 P = "/vfs/p/"
 IN = [P + "i0", P + "i1", P + "i2"]
 OUT = [P + "o0", P + "o1", P + "o2"]
+# the same roles with names whose alphabetical order is the opposite of the data flow
+IN_Z = [P + "raw_z0", P + "raw_z1", P + "raw_z2"]
+OUT_A = [P + "clean_a0", P + "clean_a1", P + "clean_a2"]
 
 
 def _spec_hashes(hs, target):
@@ -68,13 +71,14 @@ def _q1a(i0, i1, i2, o0, o1, o2, e0, e1, e2, hs):
     if not q.in_range(hs, 4):
         return q.SKIP
     mi, mo, eo = [i0, i1, i2], [o0, o1, o2], [e0, e1, e2]
-    t = Target(name="T", inputs=IN[:kin], outputs=OUT[:kout], options={}, working_dir="/vfs/p", spec="do it")
+    ins, outs = (IN_Z, OUT_A) if q.SHARD.get("names") == "reversed" else (IN, OUT)
+    t = Target(name="T", inputs=ins[:kin], outputs=outs[:kout], options={}, working_dir="/vfs/p", spec="do it")
     wrap = SubSec if q.SHARD.get("subsec") else (lambda x: x)
     cache = {}
     for i in range(kin):
-        cache[IN[i]] = wrap(mi[i])
+        cache[ins[i]] = wrap(mi[i])
     for j in range(kout):
-        cache[OUT[j]] = wrap(mo[j]) if eo[j] else None
+        cache[outs[j]] = wrap(mo[j]) if eo[j] else None
     fs = CachedFilesystem(cache=cache)
     sh, changed = _spec_hashes(hs, t)
     got_run = should_run(t, fs, sh)
@@ -297,9 +301,10 @@ def _grid(n):
 
 
 QUERIES = [
-    {"name": "Q1a", "fn": q1a, "shards": {"quick": _grid(2) + [dict(g, subsec=True) for g in _grid(2) if g["kin"] and g["kout"]], "thorough": _grid(3) + [dict(g, subsec=True) for g in _grid(3)]},
+    {"name": "Q1a", "fn": q1a, "shards": {"quick": _grid(2) + [dict(g, subsec=True) for g in _grid(2) if g["kin"] and g["kout"]] + [dict(g, names="reversed") for g in _grid(2) if g["kin"] and g["kout"]],
+                "thorough": _grid(3) + [dict(g, subsec=True) for g in _grid(3)] + [dict(g, names="reversed") for g in _grid(3)]},
      "timeout": {"quick": 240, "thorough": 900},
-     "bound": "k_in,k_out in 0..2 (quick) / 0..3 (thorough); mtimes unbounded symbolic ints, and - subsec shards - symbolic multiples of a quarter second that compare like reals but truncate under int(); existence of every output; 4 spec-hash situations"},
+     "bound": "k_in,k_out in 0..2 (quick) / 0..3 (thorough); mtimes unbounded symbolic ints, and - subsec shards - symbolic multiples of a quarter second that compare like reals but truncate under int(); existence of every output; 4 spec-hash situations; file names in data-flow alphabetical order and - 'reversed' shards - in the opposite order"},
     {"name": "Q1b", "fn": q1b,
      "shards": {"quick": [dict(g, side=sd) for g in ({"kin": 0, "kout": 0}, {"kin": 1, "kout": 1}, {"kin": 2, "kout": 1}, {"kin": 1, "kout": 2}) for sd in ("in", "out")],
                 "thorough": [dict(g, side="in", si=k) for g in _grid(2) for k in range(len(shapes(IN[:g["kin"]])))]
